@@ -179,7 +179,8 @@ func registerEnvStubs(e *Engine) {
 			if fail {
 				return tuple{"", errIface(fr.i, "stub: library failure")}
 			}
-			return tuple{text, iface{}}
+			// the library's answer is a function of the texts it is given
+			return tuple{concatStr(fr.i.ps, []value{text, "#P=", a[0], "#D=", a[1]}), iface{}}
 		},
 		mp + "/internal/validator.GenerateRego": func(fr *frame, a []value) value {
 			text, fail := libRes(fr, "validator.GenerateRego")
@@ -187,7 +188,7 @@ func registerEnvStubs(e *Engine) {
 				return tuple{(*value)(nil), errIface(fr.i, "stub: library failure")}
 			}
 			ru := fr.i.zeroOf(mp+"/internal/generator", "RegoUnit").(structure)
-			ru[2] = text
+			ru[2] = concatStr(fr.i.ps, []value{text, "#P=", a[0]})
 			var cell value = ru
 			return tuple{&cell, iface{}}
 		},
@@ -196,10 +197,14 @@ func registerEnvStubs(e *Engine) {
 			if fail {
 				return tuple{iface{}, errIface(fr.i, "stub: library failure")}
 			}
-			return tuple{iface{t: types.Typ[types.String], v: text}, iface{}}
+			return tuple{iface{t: types.Typ[types.String], v: concatStr(fr.i.ps, []value{text, "#D=", a[0]})}, iface{}}
 		},
 		mp + "/internal/validator.Encode": func(fr *frame, a []value) value {
 			text, _ := libRes(fr, "validator.Encode")
+			// ... and so is the encoding of what it is asked to encode
+			if itf, ok := a[0].(iface); ok && isStrV(itf.v) {
+				return concatStr(fr.i.ps, []value{text, "#E=", itf.v})
+			}
 			return text
 		},
 		mp + "/internal/validator.ProcessProfile": func(fr *frame, a []value) value {
@@ -646,6 +651,10 @@ func registerEnvStubs(e *Engine) {
 		if g, ok := ps.store["flatten.result"]; ok {
 			return tuple{g, iface{}}
 		}
+		// a document without nodes ({} , [], a bare @context) flattens to an empty list
+		if ps.flagDecide("flatten.empty") {
+			return tuple{iface{t: types.NewSlice(anyType), v: []value{}}, iface{}}
+		}
 		if doc, ok := a[1].(iface); ok && doc.t == nil {
 			// the processor flattens a null document to an empty list of nodes
 			return tuple{iface{t: types.NewSlice(anyType), v: []value{}}, iface{}}
@@ -762,7 +771,9 @@ func registerEnvStubs(e *Engine) {
 		} else {
 			mt := types.NewMap(types.Typ[types.String], anyType)
 			m := makeMap(types.Typ[types.String], 0).(*omap)
-			m.insert("profile", iface{t: types.Typ[types.String], v: "stub-profile"})
+			// the result is a function of the module the query was prepared from: its profile name line
+			// (what the real module answers for report.profile) identifies it
+			m.insert("profile", iface{t: types.Typ[types.String], v: evalModuleIdentity(a[0])})
 			for _, l := range []string{"violation", "warning", "info"} {
 				m.insert(l, iface{t: types.NewSlice(anyType), v: []value{}})
 			}
@@ -1131,10 +1142,10 @@ func normSite(s string) string {
 
 type jsonDecoder struct {
 	useNumber bool
-	reader  value
-	decided bool
-	bad     bool
-	docs    int
+	reader    value
+	decided   bool
+	bad       bool
+	docs      int
 }
 
 // unreadable: is no complete JSON value readable from this decoder's input? (environment's choice,
@@ -1244,4 +1255,40 @@ func genericRegoOption(fn *ssa.Function) (value, bool) {
 		return mkRegoOpt(regoOpt{kind: "other:" + fn.Name()}), true
 	}
 	return nil, false
+}
+
+// evalModuleIdentity: which module was this prepared query compiled from? The stub of
+// PrepareForEval stored the rego object in the query; its module option carries the code, whose
+// `report["profile"] = "..."` line is what the real module would answer.
+func evalModuleIdentity(pq value) value {
+	st, ok := pq.(structure)
+	if !ok || len(st) == 0 {
+		return "stub-profile"
+	}
+	inner, ok := st[0].(structure)
+	if !ok || len(inner) == 0 {
+		return "stub-profile"
+	}
+	p, ok := inner[0].(*value)
+	if !ok || p == nil {
+		return "stub-profile"
+	}
+	n, ok := (*p).(nativeObj)
+	if !ok {
+		return "stub-profile"
+	}
+	rec, ok := n.v.(map[string]value)
+	if !ok {
+		return "stub-profile"
+	}
+	code, ok := rec["module.code"].(string)
+	if !ok {
+		return "stub-profile"
+	}
+	for _, l := range strings.Split(code, "\n") {
+		if strings.HasPrefix(l, `report["profile"] = "`) && strings.HasSuffix(l, `"`) {
+			return "stub:" + strings.TrimSuffix(strings.TrimPrefix(l, `report["profile"] = "`), `"`)
+		}
+	}
+	return "stub-profile"
 }
